@@ -221,7 +221,8 @@ theorem validateFilterTables_key (a : TableArgs) (l r : Frame) (hv : TablesValid
 /-! ## 3. totality on validated arguments -/
 
 theorem setSimJoinPy_total (m : Measure) (a : JoinArgs) (t : TokObj) (toks : TokFn) (cpu : Int) (l r : Frame)
-    (hv : validateJoin m.name a t = .ok (l, r)) :
+    (hv : validateJoin m.name a t = .ok (l, r))
+    (hb : Props.BodyOK a.toTableArgs l r a.outSimScore) :
     ∃ fr, (setSimJoinPy m a t toks cpu).result = .ok fr := by
   unfold setSimJoinPy
   rw [hv]
@@ -231,11 +232,12 @@ theorem setSimJoinPy_total (m : Measure) (a : JoinArgs) (t : TokObj) (toks : Tok
         setSimJoin { f := { cfg := { measure := m, threshold := a.threshold }, allowEmpty := a.allowEmpty },
                      compOp := a.compOp, lAttr := lAttr, rAttr := rAttr, out := o, outSimScore := a.outSimScore }
           (toks true) lArr ch)
-    (fun ch => setSimJoin_width a.toTableArgs _ rfl _ _ _)
+    (fun ch => setSimJoin_width a.toTableArgs _ rfl _ _ _) hb.lstr hb.rstr hb.noClash
   exact ⟨fr, h⟩
 
 theorem overlapCoefficientJoinPy_total (a : JoinArgs) (t : TokObj) (toks : TokFn) (cpu : Int) (l r : Frame)
-    (hv : validateJoin "OVERLAP_COEFFICIENT" a t = .ok (l, r)) :
+    (hv : validateJoin "OVERLAP_COEFFICIENT" a t = .ok (l, r))
+    (hb : Props.BodyOK a.toTableArgs l r a.outSimScore) :
     ∃ fr, (overlapCoefficientJoinPy a t toks cpu).result = .ok fr := by
   unfold overlapCoefficientJoinPy
   rw [hv]
@@ -243,7 +245,7 @@ theorem overlapCoefficientJoinPy_total (a : JoinArgs) (t : TokObj) (toks : TokFn
   obtain ⟨fr, h, _⟩ := runTables_ok a.toTableArgs l r a.allowMissing a.outSimScore cpu
     (fun o lAttr rAttr lArr ch =>
         overlapCoefficientJoinSplit a.threshold a.compOp a.allowEmpty lAttr rAttr o a.outSimScore (toks true) lArr ch)
-    (fun ch => overlapCoefficientJoinSplit_width a.toTableArgs _ _ _ _ _ _ _ _ _)
+    (fun ch => overlapCoefficientJoinSplit_width a.toTableArgs _ _ _ _ _ _ _ _ _) hb.lstr hb.rstr hb.noClash
   exact ⟨fr, h⟩
 
 /-- `int(floor(threshold))` is an int for int and (finite) float thresholds -/
@@ -258,7 +260,8 @@ theorem floor_toInt_of_numeric (thr : PyV) (h : (∃ k, thr = .int k) ∨ (∃ q
 
 theorem editDistanceJoinPy_total (a : JoinArgs) (t : TokObj) (toks : TokFn) (cpu : Int) (l r : Frame) (tau : Int)
     (hv : validateJoin "EDIT_DISTANCE" a t = .ok (l, r))
-    (htau : PyV.toInt (PyV.floor a.threshold) = .int tau) :
+    (htau : PyV.toInt (PyV.floor a.threshold) = .int tau)
+    (hb : Props.BodyOK a.toTableArgs l r a.outSimScore) :
     ∃ fr, (editDistanceJoinPy a t toks cpu).result = .ok fr := by
   unfold editDistanceJoinPy
   rw [hv]
@@ -266,32 +269,32 @@ theorem editDistanceJoinPy_total (a : JoinArgs) (t : TokObj) (toks : TokFn) (cpu
   obtain ⟨fr, h, _⟩ := runTables_ok a.toTableArgs l r a.allowMissing a.outSimScore cpu
     (fun o lAttr rAttr lArr ch =>
         editDistanceJoinSplit tau t.qval a.compOp lAttr rAttr o a.outSimScore (toks false) lArr ch)
-    (fun ch => editDistanceJoinSplit_width a.toTableArgs _ _ _ _ _ _ _ _ _)
+    (fun ch => editDistanceJoinSplit_width a.toTableArgs _ _ _ _ _ _ _ _ _) hb.lstr hb.rstr hb.noClash
   exact ⟨fr, h⟩
 
 theorem filterTables_total (k : FilterKind) (f : FilterObj) (a : TableArgs) (t : TokObj) (toks : TokFn) (cpu : Int)
-    (l r : Frame) (hv : validateFilterTables a = .ok (l, r)) :
+    (l r : Frame) (hv : validateFilterTables a = .ok (l, r)) (hb : Props.BodyOK a l r false) :
     ∃ fr, filterTables k f a t toks cpu = .ok fr := by
   rw [filterTables_eq, hv]
   obtain ⟨fr, h, _⟩ := runTables_ok a l r f.allowMissing false cpu
     (fun o lAttr rAttr lArr ch => filterTablesSplit k f (toks t.returnSet) o lAttr rAttr lArr ch)
-    (fun ch => filterTablesSplit_width a k f _ _ _ _ _)
+    (fun ch => filterTablesSplit_width a k f _ _ _ _ _) hb.lstr hb.rstr hb.noClash
   exact ⟨fr, h⟩
 
 theorem overlapFilterTables_total (f : OverlapFilterObj) (a : TableArgs) (oss : Bool) (tok : String → List Tok)
-    (cpu : Int) (l r : Frame) (hv : validateFilterTables a = .ok (l, r)) :
+    (cpu : Int) (l r : Frame) (hv : validateFilterTables a = .ok (l, r)) (hb : Props.BodyOK a l r oss) :
     ∃ fr, overlapFilterTables f a oss tok cpu = .ok fr := by
   rw [overlapFilterTables_eq, hv]
   obtain ⟨fr, h, _⟩ := runTables_ok a l r f.allowMissing oss cpu
     (fun o lAttr rAttr lArr ch => overlapFilterTablesSplit f tok o lAttr rAttr oss lArr ch)
-    (fun ch => overlapFilterTablesSplit_width a f tok _ _ oss _ _)
+    (fun ch => overlapFilterTablesSplit_width a f tok _ _ oss _ _) hb.lstr hb.rstr hb.noClash
   exact ⟨fr, h⟩
 
 theorem overlapJoinPy_total (a : JoinArgs) (t : TokObj) (toks : TokFn) (cpu : Int) (f : OverlapFilterObj) (l r : Frame)
     (hf : mkOverlapFilter a.threshold a.compOp a.allowMissing t = .ok f)
-    (hv : validateFilterTables a.toTableArgs = .ok (l, r)) :
+    (hv : validateFilterTables a.toTableArgs = .ok (l, r)) (hb : Props.BodyOK a.toTableArgs l r a.outSimScore) :
     ∃ fr, (overlapJoinPy a t toks cpu).result = .ok fr := by
-  obtain ⟨fr, h⟩ := overlapFilterTables_total f a.toTableArgs a.outSimScore (toks true) cpu l r hv
+  obtain ⟨fr, h⟩ := overlapFilterTables_total f a.toTableArgs a.outSimScore (toks true) cpu l r hv hb
   refine ⟨fr, ?_⟩
   show (mkOverlapFilter a.threshold a.compOp a.allowMissing t >>= _) = _
   rw [hf]
